@@ -27,6 +27,11 @@ fn filename_to_position(file_name: &str) -> Option<u64> {
     file_name[4..].parse::<u64>().ok()
 }
 
+#[cfg(mrecordlog_verif)]
+pub(crate) fn verif_filename_to_position(file_name: &str) -> Option<u64> {
+    filename_to_position(file_name)
+}
+
 pub(crate) fn filepath(dir: &Path, file_number: &FileNumber) -> PathBuf {
     dir.join(file_number.filename())
 }
